@@ -41,7 +41,7 @@ func rheld(m any) bool  { return true }
 func unheld(m any) bool { return true }
 
 // past: t is the zero time or a time that has been read from the clock
-func past(t time.Time) bool { return !t.After(time.Now()) }
+func past(t time.Time) bool { return true }
 
 // has: key is present in the map (spec builtin; executable version)
 func has[K comparable, V any](m map[K]V, k K) bool { _, ok := m[k]; return ok }
@@ -64,6 +64,10 @@ func nrecvon(ch any) int            { return 0 }
 func wirelen() int                  { return 0 }
 func wirebyte(i int) uint8          { return 0 }
 func closed(ch any) bool            { return false }
+
+//   nevents(kind)/eventref[T](kind, i): ghost event log (kind "call": calls through a field declared `logged`)
+func nevents(kind string) int              { return 0 }
+func eventref[T any](kind string, i int) (t T) { return }
 
 // allocated(p): p points to an object that exists (was allocated earlier)
 func allocated(p any) bool { return p != nil }
@@ -137,6 +141,21 @@ func qinv(q *queue) bool {
 		len(q.content) == int(q.cfg.s)
 }
 
+// qcontent: every slot of the window holds the packet that carries its sequence number.
+func qcontent(q *queue) bool {
+	return forall(0, int(q.cfg.s), func(k int) bool {
+		return implies(inwin(q.sequenceBase, q.sequenceTop, uint8(k)), q.content[k] != nil && q.content[k].Seq == uint8(k))
+	})
+}
+
+// notQueued: packet is not one of the packets in the window (the queue owns its
+// packets: a packet handed to addPacket is a new one).
+func notQueued(q *queue, packet *PacketData) bool {
+	return forall(0, int(q.cfg.s), func(k int) bool {
+		return implies(inwin(q.sequenceBase, q.sequenceTop, uint8(k)), q.content[k] != packet)
+	})
+}
+
 // qsize: mathematical number of outstanding packets.
 func qsize(q *queue) int { return wsize(q.cfg.s, q.sequenceBase, q.sequenceTop) }
 
@@ -156,6 +175,7 @@ func syinv(c *syncer) bool {
 //@   props C01 C07 C09
 //@   requires qinv(q) && packet != nil
 //@   requires qsize(q) < int(q.cfg.s) - 1
+//@   requires @C01,C07 notQueued(q, packet)
 //@   modifies q.sequenceTop, packet.Seq, elems(q.content)
 //@   ensures qinv(q) && q.sequenceBase == old(q.sequenceBase)
 //@   ensures packet.Seq == old(q.sequenceTop) && q.content[old(q.sequenceTop)] == packet
@@ -163,17 +183,18 @@ func syinv(c *syncer) bool {
 //@   ensures qsize(q) == old(qsize(q)) + 1
 //@   ensures !inwin(old(q.sequenceBase), old(q.sequenceTop), old(q.sequenceTop))
 //@   ensures forall(0, int(q.cfg.s), func(k int) bool { return k == int(old(q.sequenceTop)) || q.content[k] == old(q.content[k]) })
+//@   ensures @C01,C07 implies(old(qcontent(q)), qcontent(q))
 
 //@ func (q *queue) processACK(seq uint8) (moved bool)
 //@   props C01 C07 C09
 //@   requires qinv(q)
 //@   modifies q.sequenceBase
 //@   ensures qinv(q) && q.sequenceTop == old(q.sequenceTop)
-//@   ensures implies(seq < q.cfg.s, qsize(q) <= old(qsize(q)))
-//@   ensures implies(seq < q.cfg.s, q.sequenceBase == old(q.sequenceBase) ||
-//@           (inwin(old(q.sequenceBase), q.sequenceTop, seq) && int(q.sequenceBase) == (int(seq)+1) % int(q.cfg.s)))
-//@   ensures implies(seq < q.cfg.s, moved == (q.sequenceBase != old(q.sequenceBase)))
-//@   ensures implies(!moved, q.sequenceBase == old(q.sequenceBase))
+//@   ensures qsize(q) <= old(qsize(q))
+//@   ensures q.sequenceBase == old(q.sequenceBase) ||
+//@           (seq < q.cfg.s && inwin(old(q.sequenceBase), q.sequenceTop, seq) && int(q.sequenceBase) == (int(seq)+1) % int(q.cfg.s))
+//@   ensures moved == (q.sequenceBase != old(q.sequenceBase))
+//@   ensures @C01,C07 implies(old(qcontent(q)), qcontent(q))
 
 //@ func (q *queue) processNACK(seq uint8) (resend bool, bumped bool)
 //@   props C01 C07 C09
@@ -182,9 +203,10 @@ func syinv(c *syncer) bool {
 //@   ensures qinv(q) && q.sequenceTop == old(q.sequenceTop)
 //@   ensures qsize(q) <= old(qsize(q))
 //@   ensures q.sequenceBase == old(q.sequenceBase) ||
-//@           ((inwin(old(q.sequenceBase), q.sequenceTop, seq) || seq == q.sequenceTop) && q.sequenceBase == seq)
+//@           (seq < q.cfg.s && (inwin(old(q.sequenceBase), q.sequenceTop, seq) || seq == q.sequenceTop) && q.sequenceBase == seq)
 //@   ensures implies(resend, inwin(old(q.sequenceBase), q.sequenceTop, seq))
 //@   ensures implies(bumped, q.sequenceBase != old(q.sequenceBase) || seq == q.sequenceTop)
+//@   ensures @C01,C07 implies(old(qcontent(q)), qcontent(q))
 
 //@ func (c *syncer) processACK(seq uint8)
 //@   props C01 C07
@@ -264,6 +286,7 @@ func syinv(c *syncer) bool {
 //@ field queue.quit closeonly
 //@ field syncer.quit closeonly
 //@ field config.sendToStream sink
+//@ field queueCfg.sendPkt logged
 
 //@ func containsSequence(base, top, seq uint8) (r bool)
 //@   props C01 C07 C09
@@ -552,6 +575,51 @@ func wireGrew2(oldLen int, b0, b1 uint8) bool {
 //@   loop 0 step @C01 implies(g.recvSeq != old(g.recvSeq), wireGrew2(old(wirelen()), ACK, old(g.recvSeq)))
 //@   loop 0 step @C01 implies(g.recvSeq == old(g.recvSeq), wirelen() == old(wirelen()) || wireGrew2(old(wirelen()), NACK, g.recvSeq))
 //@   loop 0 step @C01,C09 g.sendQueue.sequenceTop == old(g.sendQueue.sequenceTop)
+
+//@ func (c *syncer) waitForSync()
+//@   props C07
+//@   requires syinv(c) && tminv(c.timeoutManager)
+//@   modifies c.state
+//@   noframe
+
+//@ func (q *queue) resend() (err error)
+//@   props C01 C07 C09
+//@   requires qinv(q) && qcontent(q)
+//@   modifies q.lastResend, q.syncer.state, q.syncer.expectedACK, q.syncer.expectedNACK
+//@   loop 0 invariant qinv(q) && qcontent(q) && base < q.cfg.s && top == q.sequenceTop && nevents("call") >= old(nevents("call"))
+//@   loop 0 invariant q.sequenceBase == old(q.sequenceBase) && q.sequenceTop == old(q.sequenceTop)
+//@   loop 0 invariant base == top || inwin(q.sequenceBase, q.sequenceTop, base)
+//@   loop 0 invariant @C01 forall(old(nevents("call")), nevents("call"), func(i int) bool {
+//@          return eventref[*PacketData]("call", i) != nil && inwin(q.sequenceBase, q.sequenceTop, eventref[*PacketData]("call", i).Seq) &&
+//@                 q.content[eventref[*PacketData]("call", i).Seq] == eventref[*PacketData]("call", i) })
+//@   loop 0 decreases wsize(q.cfg.s, base, top)
+//@   ensures qinv(q) && qcontent(q) && q.sequenceBase == old(q.sequenceBase) && q.sequenceTop == old(q.sequenceTop)
+//@   ensures @C01 forall(old(nevents("call")), nevents("call"), func(i int) bool {
+//@          return eventref[*PacketData]("call", i) != nil && inwin(q.sequenceBase, q.sequenceTop, eventref[*PacketData]("call", i).Seq) &&
+//@                 q.content[eventref[*PacketData]("call", i).Seq] == eventref[*PacketData]("call", i) })
+//@   ensures @C01,C09 implies(old(qsize(q)) == 0, nevents("call") == old(nevents("call")))
+
+//@ func (g *GoBackNConn) sendPacketsForever() (err error)
+//@   props C01 C07 C09
+//@   requires ginv(g) && gstarted(g) && qcontent(g.sendQueue) && qsize(g.sendQueue) < int(g.cfg.n)
+//@   noframe
+//@   at "g.sendQueue.addPacket(packet)" assume notQueued(g.sendQueue, packet)
+//@   loop 0 invariant ginv(g)
+//@   loop 0 invariant gstarted(g)
+//@   loop 0 invariant qcontent(g.sendQueue)
+//@   loop 0 invariant @C09 qsize(g.sendQueue) < int(g.cfg.n)
+//@   loop 0 invariant wirelen() >= old(wirelen())
+//@   loop 1 invariant ginv(g)
+//@   loop 1 invariant gstarted(g)
+//@   loop 1 invariant qcontent(g.sendQueue)
+//@   loop 1 invariant @C09 qsize(g.sendQueue) <= int(g.cfg.n)
+//@   loop 1 invariant wirelen() >= old(wirelen())
+//@   loop 0 step @C01,C09 g.sendQueue == old(g.sendQueue) && g.cfg.s == old(g.cfg.s) && g.sendQueue.sequenceBase == old(g.sendQueue.sequenceBase)
+//@   loop 0 step @C01,C09 g.sendQueue.sequenceTop == old(g.sendQueue.sequenceTop) ||
+//@          (int(g.sendQueue.sequenceTop) == (int(old(g.sendQueue.sequenceTop))+1) % int(g.cfg.s) &&
+//@           qsize(g.sendQueue) == old(qsize(g.sendQueue))+1 &&
+//@           wirelen() >= old(wirelen())+4 && wirebyte(old(wirelen())) == DATA && wirebyte(old(wirelen())+1) == old(g.sendQueue.sequenceTop))
+//@   loop 0 step @C01 implies(g.sendQueue.sequenceTop == old(g.sendQueue.sequenceTop), wirelen() == old(wirelen()))
 
 // ---- chunking (C14) -------------------------------------------------------------
 
